@@ -87,7 +87,11 @@ class Gen:
             for i in self.idpool:
                 if r.random() < 0.6:
                     n = r.choice([1, 1, 1, 0, 2, 3])
-                    rp = [self.rpt(i if r.random() < 0.93 else r.choice(self.idpool)) for _ in range(n)]
+                    # a report labelled with ANOTHER URR's id is only scripted where the handler's call order is fixed by the
+                    # message (IE order); Sess.Close (deletion, re-association) removes URRs in Go's map order, which would
+                    # make "which of two reports for one URR comes first" depend on the run
+                    exact = op == "remove" and ev.get("msg", {}).get("k") in ("del", "asr")
+                    rp = [self.rpt(i if (exact or r.random() < 0.93) else r.choice(self.idpool)) for _ in range(n)]
                     usage.append({"op": op, "id": i, "rpts": rp})
         ev["fail"], ev["usage"] = fail, usage
 
@@ -205,6 +209,118 @@ class Gen:
             elif k == "otherrsp":
                 q = (txseq0 + r.randrange(nreq + 1)) % 2**24
                 evs.append({"t": "recv", "peer": p, "seq": q, "msg": {"k": "otherrsp", "type": r.choice(OTHER_RSP), "seid": seid()}})
+        return {"maxretrans": r.choice(self.maxretrans_choices), "txseq0": txseq0, "events": evs}
+
+    def usage_history(self):
+        """Usage-dense, mostly-valid history (C10 C11 C12): sessions with URRs 1..4 attached to PDRs, then many reports,
+        queries, updates, removals (with and without a final report), PDR dissociations, re-creations and deletions,
+        all addressed to ids the session really holds (tracked here), with a little noise."""
+        r = self.r
+        evs = []
+        seqs = [r.randrange(1, 50) for _ in range(self.npeers)]
+        txseq0 = r.choice(self.txseq0_choices)
+        pool = [1, 2, 3, 4]
+
+        def recv(peer, msg, usage=None, fail=None):
+            seqs[peer] += 1
+            return {"t": "recv", "peer": peer, "seq": seqs[peer], "msg": msg, "fail": fail or [], "usage": usage or []}
+
+        def urr(i):
+            return {"id": i, "method": r.choice([None, 1, 2, 3, 6, 7]), "info": r.choice([None, 0, 16, 0x1f])}
+
+        def rpts(i, n=None, exact=False):
+            n = r.choice([1, 1, 1, 2, 3]) if n is None else n
+            return [self.rpt(i if (exact or r.random() < 0.95) else r.choice(pool)) for _ in range(n)]
+
+        sess = {}     # UP SEID -> {"peer", "urrs": set, "pdrs": {pdr id: [urr ids]}}
+        nsess = 0
+        p0 = r.randrange(self.npeers)
+        evs.append(recv(p0, {"k": "asr", "nid": {"v": p0}}))
+        assoc = {p0}
+        n = r.randint(10, self.maxlen + 10)
+        while len(evs) < n:
+            x = r.random()
+            if not sess or x < 0.07:
+                p = r.choice(sorted(assoc)) if r.random() < 0.8 else r.randrange(self.npeers)
+                if p not in assoc:
+                    evs.append(recv(p, {"k": "asr", "nid": {"v": p}}))
+                    assoc.add(p)
+                us = sorted(r.sample(pool, r.choice([1, 2, 2, 3, 4])))
+                pdrs = {}
+                for pid in range(1, r.choice([1, 2, 2, 3]) + 1):
+                    pdrs[pid] = sorted(r.sample(us, r.randint(0, min(2, len(us)))))
+                ops = {"cFAR": [1], "cQER": [], "cURR": [urr(i) for i in us], "cBAR": [],
+                       "cPDR": [{"id": k, "urrs": v, "ueip": False} for k, v in pdrs.items()]}
+                evs.append(recv(p, {"k": "est", "nid": {"v": p}, "fseid": {"v": r.choice([10, 11, 77])}, "ops": ops}))
+                nsess += 1
+                sess[nsess] = {"peer": p, "urrs": set(us), "pdrs": pdrs}
+            elif x < 0.42:
+                lid = r.choice(sorted(sess))
+                S = sess[lid]
+                items = []
+                for _ in range(r.choice([1, 1, 2, 3, 4])):
+                    u = r.choice(sorted(S["urrs"])) if S["urrs"] and r.random() < 0.9 else r.choice(pool + [9])
+                    items.append({"usa": self.rpt(u)})
+                if r.random() < 0.05:
+                    lid = r.choice([0, nsess + 3])
+                evs.append({"t": "report", "seid": lid, "items": items})
+            elif x < 0.88:
+                lid = r.choice(sorted(sess))
+                S = sess[lid]
+                ops, usage = {}, []
+                for act in r.sample(["q", "u", "r", "c", "rp", "up", "cp"], r.choice([1, 1, 2, 3])):
+                    have = sorted(S["urrs"])
+                    if act == "q" and have:
+                        ids = r.sample(have, r.randint(1, min(2, len(have))))
+                        ops["qURR"] = ids
+                        usage += [{"op": "query", "id": i, "rpts": rpts(i)} for i in ids if r.random() < 0.9]
+                    elif act == "u" and have:
+                        ids = r.sample(have, r.randint(1, min(2, len(have))))
+                        ops["uURR"] = [urr(i) for i in ids]
+                        usage += [{"op": "update", "id": i, "rpts": rpts(i)} for i in ids if r.random() < 0.6]
+                    elif act == "r" and have:
+                        ids = r.sample(have, r.randint(1, min(2, len(have))))
+                        ops["rURR"] = ids
+                        usage += [{"op": "remove", "id": i, "rpts": rpts(i, r.choice([1, 1, 1, 2]))} for i in ids if r.random() < 0.7]
+                        if r.random() < 0.85:
+                            S["urrs"] -= set(ids)
+                    elif act == "c":
+                        free = [i for i in pool if i not in S["urrs"]]
+                        if free:
+                            ids = r.sample(free, r.randint(1, min(2, len(free))))
+                            ops["cURR"] = [urr(i) for i in ids]
+                            S["urrs"] |= set(ids)
+                    elif act == "rp" and S["pdrs"]:
+                        pid = r.choice(sorted(S["pdrs"]))
+                        ops["rPDR"] = [pid]
+                        for i in S["pdrs"].pop(pid):
+                            if r.random() < 0.8:
+                                usage.append({"op": "query", "id": i, "rpts": rpts(i, 1)})
+                    elif act == "up" and S["pdrs"] and have:
+                        pid = r.choice(sorted(S["pdrs"]))
+                        new = sorted(r.sample(have, r.randint(0, min(2, len(have)))))
+                        ops["uPDR"] = [{"id": pid, "urrs": new, "ueip": False}]
+                        for i in S["pdrs"][pid]:
+                            if i not in new and r.random() < 0.8:
+                                usage.append({"op": "query", "id": i, "rpts": rpts(i, 1)})
+                        if new:
+                            S["pdrs"][pid] = new
+                    elif act == "cp" and have:
+                        pid = r.choice([k for k in (1, 2, 3, 4) if k not in S["pdrs"]] or [5])
+                        new = sorted(r.sample(have, r.randint(1, min(2, len(have)))))
+                        ops["cPDR"] = [{"id": pid, "urrs": new, "ueip": False}]
+                        S["pdrs"][pid] = new
+                p = S["peer"] if r.random() < 0.95 else r.randrange(self.npeers)
+                evs.append(recv(p, {"k": "mod", "seid": lid, "nid": {"absent": True}, "ops": ops}, usage=usage))
+            elif x < 0.95:
+                lid = r.choice(sorted(sess))
+                S = sess.pop(lid)
+                # exact labels: Sess.Close removes the URRs in Go's map order (see Gen.env)
+                usage = [{"op": "remove", "id": i, "rpts": rpts(i, r.choice([1, 1, 2]), exact=True)} for i in sorted(S["urrs"]) if r.random() < 0.85]
+                evs.append(recv(S["peer"], {"k": "del", "seid": lid}, usage=usage))
+            else:
+                evs.append({"t": "recv", "peer": r.randrange(self.npeers), "seq": (txseq0 + r.randrange(len(evs) + 1)) % 2**24,
+                            "msg": {"k": "srr", "hdr": r.choice([0, 10, 1])}, "fail": [], "usage": []})
         return {"maxretrans": r.choice(self.maxretrans_choices), "txseq0": txseq0, "events": evs}
 
 
